@@ -53,7 +53,7 @@ def EXHAUSTIVE(tier):
 SCENARIOS = [
     # (role, scenario)
     ("client", "single"), ("client", "batch"), ("client", "nobatch"),
-    ("claim", "plain"), ("claim", "cc"), ("claim", "blocking"),
+    ("claim", "plain"), ("claim", "cc"), ("claim", "ccretry"), ("claim", "blocking"),
     ("run", "ok"), ("run", "fail"), ("run", "retry"), ("run", "cc"),
     ("kill", "running"),
     ("ppr", "plain"), ("ppr", "cc"),          # the real PersistentProcessRunner worker loop (persistent_process_main) for a bounded number of polls
@@ -156,6 +156,19 @@ def setup(case, db):
                 submit("by"); submit_keyed("x1", 1)
                 if mix:
                     submit_keyed("x2", 1 if mix == 1 else 2)
+            st["finish_by_survivor"] = [x0.invocation_id]
+        elif (role, scn) == ("claim", "ccretry"):
+            # the blocked invocation is a RETRY one (it ran once under the survivor and asked for a retry); x0 holds the key meanwhile
+            x1 = submit_keyed("x1", 1)
+            claim(app, S, 1)
+            orch.set_invocation_status(x1.invocation_id, InvocationStatus.RUNNING, S)
+            x0 = submit_keyed("x0", 1)
+            orch.set_invocation_retry(x1.invocation_id, RuntimeError("again"), S)
+            claim(app, S, 1)
+            orch.set_invocation_status(x0.invocation_id, InvocationStatus.RUNNING, S)
+            submit("by")
+            if mix:
+                submit_keyed("x2", 1 if mix == 1 else 2)
             st["finish_by_survivor"] = [x0.invocation_id]
         elif (role, scn) == ("claim", "blocking"):
             w = submit("w")
